@@ -38,9 +38,33 @@ def spStats (cfg : SWCfg) (c : Col) (es : PageEntries) : List (Nat × TVal) :=
 
 def spExtra (cfg : SWCfg) : List (Nat × TVal) := if cfg.withExtras then extraField else []
 
+/-- the label the (un-mutated) data page header gives the definition-level encoding: RLE (3), or — in the
+parquet-mr style `mrLabels` — BIT_PACKED (4) when the column has no definition levels -/
+def SWCfg.defLabel (cfg : SWCfg) (c : Col) : Nat := if cfg.mrLabels ∧ c.isRequired then 4 else 3
+
+/-- the label the (un-mutated) data page header gives the repetition-level encoding: RLE (3), or — in the
+parquet-mr style `mrLabels` — BIT_PACKED (4) when the column has no repetition levels -/
+def SWCfg.repLabel (cfg : SWCfg) (c : Col) : Nat := if cfg.mrLabels ∧ c.maxRep = 0 then 4 else 3
+
+theorem SWCfg.defLabel_of_not_required (cfg : SWCfg) (c : Col) (h : c.isRequired = false) : cfg.defLabel c = 3 := by
+  unfold SWCfg.defLabel
+  rw [if_neg (by rw [h]; exact fun h' => Bool.noConfusion h'.2)]
+
+theorem SWCfg.repLabel_of_repeated (cfg : SWCfg) (c : Col) (h : c.maxRep > 0) : cfg.repLabel c = 3 := by
+  unfold SWCfg.repLabel
+  rw [if_neg (fun h' => by omega)]
+
+theorem SWCfg.defLabel_of_plain (cfg : SWCfg) (c : Col) (h : cfg.mrLabels = false) : cfg.defLabel c = 3 := by
+  unfold SWCfg.defLabel
+  rw [if_neg (by rw [h]; exact fun h' => Bool.noConfusion h'.1)]
+
+theorem SWCfg.repLabel_of_plain (cfg : SWCfg) (c : Col) (h : cfg.mrLabels = false) : cfg.repLabel c = 3 := by
+  unfold SWCfg.repLabel
+  rw [if_neg (by rw [h]; exact fun h' => Bool.noConfusion h'.1)]
+
 /-- the data page header -/
 def spDph (cfg : SWCfg) (c : Col) (es : PageEntries) : TVal :=
-  .struct ([(1, .int 5 es.length), (2, .int 5 (0 : Nat)), (3, .int 5 (3 : Nat)), (4, .int 5 (3 : Nat))] ++ spStats cfg c es ++ spExtra cfg)
+  .struct ([(1, .int 5 es.length), (2, .int 5 (0 : Nat)), (3, .int 5 (cfg.defLabel c)), (4, .int 5 (cfg.repLabel c))] ++ spStats cfg c es ++ spExtra cfg)
 
 /-- the page header -/
 def spHdr (cfg : SWCfg) (c : Col) (es : PageEntries) (rawLen compLen : Nat) : TVal :=
@@ -97,16 +121,17 @@ theorem decVal_spHdr (cfg : SWCfg) (c : Col) (es : PageEntries) (u z : Nat) (t :
   have := decVal_enc_need (spHdr cfg c es u z) (spHdr_wf cfg c es u z) F t (by have := spHdr_need cfg c es u z; omega)
   simpa [spHdr, TVal.ecode, TVal.code] using this
 
-/-- what `PageHeader.Read` makes of the header; `so`: the statistics, if any -/
-def spPH (u z n : Nat) (so : Option (List (Nat × TVal))) : PHdr :=
-  { ty := 0, uncompressed := (u : Nat), compressed := (z : Nat), dph := some ((n : Nat), 0, 3, 3, so),
+/-- what `PageHeader.Read` makes of the header; `dl`, `rl`: the labels of the definition- and
+repetition-level encodings; `so`: the statistics, if any -/
+def spPH (u z n dl rl : Nat) (so : Option (List (Nat × TVal))) : PHdr :=
+  { ty := 0, uncompressed := (u : Nat), compressed := (z : Nat), dph := some ((n : Nat), 0, (dl : Nat), (rl : Nat), so),
     hasDict := false, hasIndex := false, hasV2 := false }
 
 /-- **`PageHeader.Read` on the spec writer's header**: type, sizes, `num_values` and encodings are found
 whether or not statistics and unknown fields (id 100, in both the page header and the data page header)
 are present. -/
 theorem decPHdr_spHdr (cfg : SWCfg) (c : Col) (es : PageEntries) (u z : Nat) :
-    ∃ so, decPHdr (spHdr cfg c es u z) = some (spPH u z es.length so) := by
+    ∃ so, decPHdr (spHdr cfg c es u z) = some (spPH u z es.length (cfg.defLabel c) (cfg.repLabel c) so) := by
   cases hs : cfg.withStats <;> cases he : cfg.withExtras
   · exact ⟨none, by simp [decPHdr, spHdr, spDph, spStats, spExtra, hs, he, spPH, TVal.fieldsOf, getI32, getStruct, List.lookup]⟩
   · exact ⟨none, by simp [decPHdr, spHdr, spDph, spStats, spExtra, extraField, hs, he, spPH, TVal.fieldsOf, getI32, getStruct, List.lookup]⟩
@@ -115,10 +140,28 @@ theorem decPHdr_spHdr (cfg : SWCfg) (c : Col) (es : PageEntries) (u z : Nat) :
   · exact ⟨some (statsFields (cfg.pageStatsResult c es)), by
       simp [decPHdr, spHdr, spDph, spStats, spExtra, extraField, hs, he, spPH, TVal.fieldsOf, getI32, getStruct, List.lookup, statsT_eq]⟩
 
-theorem checkPage_spPH (u z n : Nat) (so : Option (List (Nat × TVal))) (d r : Bool) : checkPage (spPH u z n so) d r = true := by
+/-- `checkPage` on a header labelled RLE / RLE, whichever levels are asked for -/
+theorem checkPage_spPH (u z n : Nat) (so : Option (List (Nat × TVal))) (d r : Bool) : checkPage (spPH u z n 3 3 so) d r = true := by
   cases d <;> cases r <;> simp [checkPage, spPH]
 
-theorem numValuesOf_spPH (u z n : Nat) (so : Option (List (Nat × TVal))) : numValuesOf (spPH u z n so) = .ok (n : Int) := rfl
+/-- **`RequiredField.DoRead`'s check ignores both level-encoding labels** -/
+theorem checkPage_spPH_required (u z n dl rl : Nat) (so : Option (List (Nat × TVal))) :
+    checkPage (spPH u z n dl rl so) false false = true := by
+  simp [checkPage, spPH]
+
+/-- **`OptionalField.DoRead`'s check on a non-required column**: the definition label is RLE; the repetition
+label is RLE when the column is repeated and is not looked at otherwise -/
+theorem checkPage_spPH_optional (cfg : SWCfg) (c : Col) (hreq : c.isRequired = false) (u z n : Nat)
+    (so : Option (List (Nat × TVal))) :
+    checkPage (spPH u z n (cfg.defLabel c) (cfg.repLabel c) so) true (decide (c.maxRep > 0)) = true := by
+  rw [cfg.defLabel_of_not_required c hreq]
+  by_cases hrep : c.maxRep > 0
+  · rw [cfg.repLabel_of_repeated c hrep]
+    exact checkPage_spPH u z n so _ _
+  · rw [decide_eq_false hrep]
+    simp [checkPage, spPH]
+
+theorem numValuesOf_spPH (u z n dl rl : Nat) (so : Option (List (Nat × TVal))) : numValuesOf (spPH u z n dl rl so) = .ok (n : Int) := rfl
 
 /-- `readStruct` at the start of a page returns its header and stops right after it -/
 theorem readStruct_spHdr (cfg : SWCfg) (c : Col) (es : PageEntries) (u z : Nat) (pre t : Bytes) :
@@ -142,9 +185,9 @@ def SpCodecOK (dc : Decomp) (codec : Nat) (compress : Bytes → Bytes) (raw : By
 
 /-- `pageData` on the stored payload of a page -/
 theorem pageData_sp (dc : Decomp) (codec : Nat) (compress : Bytes → Bytes) (raw : Bytes)
-    (hk : SpCodecOK dc codec compress raw) (n : Nat) (so : Option (List (Nat × TVal))) (pre post : Bytes) :
+    (hk : SpCodecOK dc codec compress raw) (n dl rl : Nat) (so : Option (List (Nat × TVal))) (pre post : Bytes) :
     pageData dc (Src.mk (pre ++ spComp codec compress raw ++ post) pre.length)
-        (spPH raw.length (spComp codec compress raw).length n so) (codec : Int) =
+        (spPH raw.length (spComp codec compress raw).length n dl rl so) (codec : Int) =
       .ok (raw, Src.mk (pre ++ spComp codec compress raw ++ post) (pre.length + (spComp codec compress raw).length)) := by
   unfold pageData
   rcases hk with h0 | ⟨h1, hs⟩ | ⟨h2, hs⟩
@@ -298,10 +341,10 @@ theorem readSpPage (dc : Decomp) (cfg : SWCfg) (c : Col) (codec : Nat) (compress
       (Src.mk (pre ++ (spPage cfg c codec compress cs es).1 ++ (spPage cfg c codec compress cs es).2 ++ rest) pre.length).readStruct =
         .ok (t, Src.mk (pre ++ (spPage cfg c codec compress cs es).1 ++ (spPage cfg c codec compress cs es).2 ++ rest)
           (pre.length + (spPage cfg c codec compress cs es).1.length)) ∧
-      decPHdr t = some (spPH (spRaw cfg c cs es).length (spPage cfg c codec compress cs es).2.length es.length so) ∧
+      decPHdr t = some (spPH (spRaw cfg c cs es).length (spPage cfg c codec compress cs es).2.length es.length (cfg.defLabel c) (cfg.repLabel c) so) ∧
       pageData dc (Src.mk (pre ++ (spPage cfg c codec compress cs es).1 ++ (spPage cfg c codec compress cs es).2 ++ rest)
           (pre.length + (spPage cfg c codec compress cs es).1.length))
-          (spPH (spRaw cfg c cs es).length (spPage cfg c codec compress cs es).2.length es.length so) (codec : Int) =
+          (spPH (spRaw cfg c cs es).length (spPage cfg c codec compress cs es).2.length es.length (cfg.defLabel c) (cfg.repLabel c) so) (codec : Int) =
         .ok (spRaw cfg c cs es,
           Src.mk (pre ++ (spPage cfg c codec compress cs es).1 ++ (spPage cfg c codec compress cs es).2 ++ rest)
             (pre.length + ((spPage cfg c codec compress cs es).1.length + (spPage cfg c codec compress cs es).2.length))) := by
@@ -311,7 +354,7 @@ theorem readSpPage (dc : Decomp) (cfg : SWCfg) (c : Col) (codec : Nat) (compress
       ((spPage cfg c codec compress cs es).2 ++ rest)
     simp only [spPage, List.append_assoc] at this ⊢
     exact this
-  · have := pageData_sp dc codec compress (spRaw cfg c cs es) hk es.length so (pre ++ (spPage cfg c codec compress cs es).1) rest
+  · have := pageData_sp dc codec compress (spRaw cfg c cs es) hk es.length (cfg.defLabel c) (cfg.repLabel c) so (pre ++ (spPage cfg c codec compress cs es).1) rest
     simp only [spPage, List.length_append, Nat.add_assoc] at this ⊢
     exact this
 
@@ -330,7 +373,7 @@ theorem requiredDoRead_spStep (dc : Decomp) (cfg : SWCfg) (c : Col) (codec : Nat
         (nRead + (es.length : Int)) (out ++ spRaw cfg c cs es) (sizes ++ [(es.length : Int)]) := by
   obtain ⟨t, so, h1, h2, h3⟩ := readSpPage dc cfg c codec compress cs es hk pre rest
   rw [requiredDoRead, if_pos hlt]
-  simp only [bind, Except.bind, h1, h2, pure, Except.pure, checkPage_spPH, Bool.not_true,
+  simp only [bind, Except.bind, h1, h2, pure, Except.pure, checkPage_spPH_required, Bool.not_true,
     Bool.false_eq_true, if_false, numValuesOf_spPH, hcodec, h3]
 
 /-! ## `OptionalField.DoRead` -/
@@ -355,7 +398,7 @@ theorem optionalDoRead_spStep (dc : Decomp) (cfg : SWCfg) (c : Col) (codec : Nat
   obtain ⟨hr, ⟨padd, hpd, hd⟩, e3, hle⟩ := spRaw_levels cfg c cs es hreq hwf.maxDef hent hlen
   have hcount := count_maxDef' c es hreq hwf
   rw [optionalDoRead, if_pos hlt]
-  simp only [bind, Except.bind, h1, h2, pure, Except.pure, checkPage_spPH, Bool.not_true,
+  simp only [bind, Except.bind, h1, h2, pure, Except.pure, checkPage_spPH_optional cfg c hreq, Bool.not_true,
     Bool.false_eq_true, if_false, numValuesOf_spPH, hcodec, h3]
   have hsub : pre.length + ((spPage cfg c codec compress cs es).1.length + (spPage cfg c codec compress cs es).2.length) - pre.length =
       (spPage cfg c codec compress cs es).1.length + (spPage cfg c codec compress cs es).2.length := by omega
